@@ -276,6 +276,10 @@ var _ = pr.AutoF
 //@   ensures[min-content] table.Width.V() >= tmp.tableMinContentWidth
 // the four guesses are working copies: the preferred widths come from the per-context cache and are
 // read again by every later layout of the same table, so the guesses must not share their storage
+// the max-content guess is kept, and excess distributed over it, only when the ASSIGNABLE width (the table width
+// without the border-spacing) is larger than the sum of that guess: the excess is positive (css-tables-3 §3.9.3.2)
+//@   assert after excessWidth#1: excessWidth > 0 && excessWidth == assignableWidth - sum(maxContentGuess, 0, len(maxContentGuess))
+//@   assert after assignableWidth#1: assignableWidth == pr.VV(table.Width) - tmp.totalHorizontalBorderSpacing
 //@   assert after minContentGuess#1: fresh(minContentGuess)
 //@   assert after minContentPercentageGuess#1: fresh(minContentPercentageGuess)
 //@   assert after minContentSpecifiedGuess#1: fresh(minContentSpecifiedGuess)
@@ -664,3 +668,12 @@ func vBreakLineOrphansWidows() (int, []string) {
 //@   assert after computedMarginsR#1: calls(blockReplacedWidth_) == 0 && calls(minMaxAutoReplaced) == 0
 //@   call minMaxAutoReplaced#1 assert[after-the-intrinsic-size] calls(blockReplacedWidth_) == 1 && calls(replacedBoxHeight_) == 1 && arg0 == box
 //@   call blockLevelWidth_#1 assert[final-resolution-from-the-computed-margins] box.MarginLeft == computedMarginsL && box.MarginRight == computedMarginsR && calls(minMaxAutoReplaced) == 1 && arg0 == box_ && arg2 == containingBlock
+
+// CSS Text 3 §8.1 text-indent: the indentation applies to the FIRST line of the block only: in the widths of
+// the lines of an inline formatting context, once a line has been closed (a forced break, or a child that
+// spans several lines) the indentation is spent, however many lines that child brought
+//@ func inlineLineWidths
+//@   props C11
+//@   modifies anything
+//@   unclaimed call-*-pre* "box and style accessors"
+//@   loop 1 invariant[indent-on-the-first-line-only] len(out) > 0 ==> textIndent == 0
